@@ -325,6 +325,20 @@ impl RuntimeData {
             }
         }
 
+        // open upvalues stay on the open list (and get closed later) even if no closure that
+        // captured them is reachable any more
+        let mut upvalue = self.open_upvalues;
+        while let Some(obj) = unsafe { upvalue.as_mut() } {
+            upvalue = obj
+                .as_upvalue()
+                .map(|u| u.next)
+                .unwrap_or(std::ptr::null_mut());
+            if matches!(obj.marker, GcMarker::White) {
+                obj.marker = GcMarker::Gray;
+                progress_tracker.push(obj);
+            }
+        }
+
         macro_rules! checked_enqueue_value {
             ($val: ident) => {
                 if let Value::Object(mut value) = $val {
